@@ -5,9 +5,11 @@ import (
 	"encoding/base64"
 	"fmt"
 	"math/rand"
+	"regexp"
 	"runtime"
 	"sort"
 	"strings"
+	"syscall"
 	"time"
 
 	ipfslog "berty.tech/go-ipfs-log"
@@ -53,6 +55,7 @@ func callHang(st *store.Store, grace time.Duration, fn func()) (returned bool, d
 	go func() { defer close(done); fn() }()
 	start := time.Now()
 	lastSeq, stable := int64(-1), 0
+	var lw livelockWatch
 	for {
 		select {
 		case <-done:
@@ -67,15 +70,74 @@ func callHang(st *store.Store, grace time.Duration, fn func()) (returned bool, d
 			stable++
 		} else {
 			stable = 0
+			lw.reset()
 		}
 		lastSeq = seq
 		if stable >= 6 {
-			return false, goroutineDump()
+			// the store is quiescent - but a library goroutine may simply not have been scheduled yet (decoding a
+			// block on a loaded machine): hung if every goroutine inside the library is waiting for something, or
+			// if the process keeps BURNING CPU in this state (a spinning goroutine; a starved one burns nothing)
+			d := goroutineDump()
+			if !libBusy(d) {
+				return false, d
+			}
+			if lw.spinning() {
+				return false, "LIVELOCK: store quiescent, call not returned, a library goroutine kept running and the process burned >" + livelockCPU.String() + " of CPU time in that state\n\n" + d
+			}
+			stable = 3
 		}
 		if time.Since(start) > 120*time.Second {
 			return false, ""
 		}
 	}
+}
+
+// livelockWatch accounts the CPU time the process burns while the store is quiescent and the call under
+// observation has not returned. CPU time, unlike elapsed time, does not advance for a goroutine that is merely
+// starved on a loaded machine; the harness itself only polls in that state. One case runs at a time per process.
+type livelockWatch struct {
+	armed bool
+	cpu0  time.Duration
+}
+
+const livelockCPU = 10 * time.Second
+
+func processCPU() time.Duration {
+	var ru syscall.Rusage
+	if err := syscall.Getrusage(syscall.RUSAGE_SELF, &ru); err != nil {
+		return 0
+	}
+	return time.Duration(ru.Utime.Nano() + ru.Stime.Nano())
+}
+
+func (l *livelockWatch) reset() { l.armed = false }
+
+func (l *livelockWatch) spinning() bool {
+	if !l.armed {
+		l.armed, l.cpu0 = true, processCPU()
+		return false
+	}
+	return processCPU()-l.cpu0 > livelockCPU
+}
+
+var waitingState = regexp.MustCompile(`^goroutine \d+ \[(sync\.|semacquire|chan |select)`)
+
+// libBusy reports whether some goroutine with a library frame on its stack is running, runnable or in a system
+// call (i.e. not waiting for another goroutine): then nothing can be said about a hang yet.
+func libBusy(dump string) bool {
+	for _, g := range strings.Split(dump, "\n\n") {
+		if !strings.Contains(g, "berty.tech/go-ipfs-log") || strings.Contains(g, "mon.goroutineDump") {
+			continue
+		}
+		first := g
+		if i := strings.Index(g, "\n"); i > 0 {
+			first = g[:i]
+		}
+		if !waitingState.MatchString(first) {
+			return true
+		}
+	}
+	return false
 }
 
 type faultPlan struct {
@@ -301,6 +363,7 @@ func c11Case(run *evid.Run, i int, j *Journal) {
 					deadline = 1500 * time.Millisecond
 				}
 				lastSeq, stable := int64(-1), 0
+				var lw livelockWatch
 				for {
 					select {
 					case <-returned:
@@ -317,10 +380,20 @@ func c11Case(run *evid.Run, i int, j *Journal) {
 						stable = 0
 					}
 					lastSeq = seq
+					if stable == 0 {
+						lw.reset()
+					}
 					if stable >= 5 {
-						hung = true
-						dump = goroutineDump()
-						return
+						d := goroutineDump()
+						switch {
+						case !libBusy(d):
+							hung, dump = true, d
+							return
+						case lw.spinning():
+							hung, dump = true, "LIVELOCK: store quiescent, every timeout fired, call not returned, a library goroutine kept running and the process burned >"+livelockCPU.String()+" of CPU time in that state\n\n"+d
+							return
+						}
+						stable = 3 // a library goroutine is still working (or waiting for a CPU): keep watching
 					}
 					if time.Since(started) > 120*time.Second {
 						return
